@@ -5,3 +5,5 @@ package ristretto
 import "reflect"
 
 func verifPoolItemsOf(v reflect.Value) []any { return nil }
+
+func verifChanItems(p uintptr) []any { return nil }
